@@ -163,7 +163,7 @@ def strategy(thorough):
 def run_shard(ctx):
     stats = core.Stats()
     thorough = ctx.tier == "thorough"
-    core.hyp_search(strategy(thorough), lambda c: execute(c, ctx.scratch), stats, max_examples=25 if thorough else 4,
+    core.hyp_search(strategy(thorough), lambda c: execute(c, ctx.scratch), stats, max_examples=60 if thorough else 4,
                     seed=core.hash64(ctx.seed, ID, ctx.shard), findings=ctx.findings, shrink=thorough,
                     deadline_s=(ctx.deadline - time.time()) if ctx.deadline else None)
     return stats
